@@ -269,6 +269,12 @@ fn build_source(rng: &mut Rng, dir: &std::path::Path, p: &Plan, txs: usize, thor
 			}
 			drive(&db)?;
 		}
+		// deletions inside the crowded pages: holes in front of live entries
+		let gone: Vec<Vec<u8>> = items.iter().filter(|_| rng.chance(1, 4)).map(|(k, _)| k.clone()).collect();
+		for tx in content.explicit_removes(g, &gone) {
+			db.commit_changes(tx).map_err(|e| format!("commit: {}", e))?;
+		}
+		drive(&db)?;
 	}
 	if p.many {
 		// more keys than one migration commit batch holds (10240 operations); thorough: ~20-30k
@@ -287,6 +293,11 @@ fn build_source(rng: &mut Rng, dir: &std::path::Path, p: &Plan, txs: usize, thor
 			}
 			drive(&db)?;
 		}
+		let gone: Vec<Vec<u8>> = items.iter().filter(|_| rng.chance(1, 10)).map(|(k, _)| k.clone()).collect();
+		for tx in content.explicit_removes(c, &gone) {
+			db.commit_changes(tx).map_err(|e| format!("commit: {}", e))?;
+		}
+		drive(&db)?;
 	}
 	drive(&db)?;
 	let st = db.verif_status();
